@@ -105,6 +105,10 @@ func (x *Exec) bufKeyT(st *State, w *Term, ty types.Type) *Term {
 	for i := 0; i < stt.NumFields(); i++ {
 		if stt.Field(i).Name() == "Buffer" {
 			k := regHeap(fieldKey(wt.Type(), i), heapSortField(wt.Type(), i))
+			if x.entry != nil {
+				// the heap at entry holds no reference that did not exist at entry
+				st.add(Le(Select(x.entry.heapArr(k, heapSorts[k]), w), x.entry.ghostInt("top")))
+			}
 			tag := IntLit(int64(x.P.typeTag(types.NewPointer(wt.Type()))))
 			if ty != nil {
 				if _, isIface := ty.Underlying().(*types.Interface); !isIface {
@@ -226,9 +230,14 @@ func (x *Exec) external(st *State, site ssa.Instruction, callee *ssa.Function, c
 		x.setResult(st, res, Val{T: ToReal(App("to_int", SInt, at(0)))})
 		return true
 	case "github.com/mattn/go-runewidth.StringWidth":
+		// dw is the width a terminal shows; runewidth agrees with it on text that carries no
+		// zero-width control sequences (plain), and counts the bytes of such sequences otherwise
 		s := at(0)
 		x.strFacts(st, s)
-		x.setResult(st, res, Val{T: App("dw", SInt, s)})
+		theU.DeclFunc("plain", SBool, SStr)
+		r := x.freshVar("sw", SInt)
+		st.add(Ge(r, Zero), Implies(App("plain", SBool, s), Eq(r, App("dw", SInt, s))))
+		x.setResult(st, res, Val{T: r})
 		return true
 	case "github.com/mattn/go-runewidth.Truncate":
 		s, w, tail := at(0), at(1), at(2)
@@ -408,6 +417,13 @@ func (x *Exec) external(st *State, site ssa.Instruction, callee *ssa.Function, c
 		return x.heapModel(st, site, callee, c, args, res)
 	case "time.Now":
 		x.setResult(st, res, Val{T: x.freshVar("now", sortOfStatic(callee.Signature.Results().At(0).Type()))})
+		return true
+	case "(*os.File).Fd":
+		// assumed: the descriptor of an open file, a small non-negative number (Fd of a closed
+		// file is ^uintptr(0), which the conversion to int turns into -1)
+		r := x.freshVar("fd", SInt)
+		st.add(Ge(r, Zero), Le(r, BigLit(pow2(31))))
+		x.setResult(st, res, Val{T: r})
 		return true
 	case "time.Since", "(time.Time).Sub":
 		r := x.freshVar("dur", SInt)
